@@ -19,8 +19,9 @@ Theorem C08_refusal_changes_nothing : forall b root last want,
 Proof. intros b root last want H. unfold get_free_blocks. rewrite H. reflexivity. Qed.
 
 (* on the file handle model (Model/FileIO.v, tied to adf_file.c by the call-level correspondence): a write that needs a new block
-   and is refused one returns 0 and leaves the handle and the volume exactly as they were *)
-Theorem C08_refused_write_changes_nothing : forall bs ofs, 0 < bs -> forall s data al, mw s = true -> pos s mod bs = 0 -> pos s = fsize s -> data <> [] ->
+   and is refused one returns 0 and leaves the handle and the volume exactly as they were (the handle has a buffered block or the file is
+   empty: a handle an earlier device error left without one refuses every write before the allocator is asked) *)
+Theorem C08_refused_write_changes_nothing : forall bs ofs, 0 < bs -> forall s data al, mw s = true -> (cur s <> 0 \/ fsize s = 0) -> pos s mod bs = 0 -> pos s = fsize s -> data <> [] ->
   fio_write bs ofs nobad s data (None :: al) = (s, 0, al) /\ fio_write bs ofs nobad s data [] = (s, 0, []).
 Proof. exact fio_write_refused. Qed.
 
